@@ -214,6 +214,7 @@ def run_scenario(line):
     name_locks(c)
     c._out_packet = LogDeque()
     c.max_inflight_messages_set(int(a.get("N", 20)))
+    c.max_queued_messages_set(int(a.get("M", 0)))      # M > 0: publishes beyond M outstanding messages are refused
     nthreads = 2 + len([p for p in a.get("msgs", "1").split(";")])
     state = {"wire": 0, "sec": {}}       # bytes sent since the last clear; per-thread mid-section state
 
@@ -277,6 +278,7 @@ def run_scenario(line):
     started = {"v": False}
     stopped = {"v": False}
     results = {}          # (pub index, msg index) -> (rc, mid, info, qos)
+    sub_mids = []         # packet ids returned by subscribe() calls
     on_pub = []
     c.on_publish = lambda cl, ud, mid, rc, props: on_pub.append(mid)
     progs = [[int(q) for q in p.split(",") if q != ""] for p in a.get("msgs", "1").split(";")]
@@ -291,6 +293,11 @@ def run_scenario(line):
                 if stopped["v"]:
                     break        # the network thread has been stopped: later publishes are outside C07
                 try:
+                    if q == 3:
+                        # a subscribe() among the publishes: it draws a packet id from the same generator
+                        r_, m_ = c.subscribe(f"s/{i}/{j}", 1)
+                        sub_mids.append(m_)
+                        continue
                     info = c.publish(f"t/{i}/{j}", bytes([65 + i, 48 + j]) * 3, q)
                     results[(i, j)] = (int(info.rc), info.mid, info, q)
                 except Exception as e:  # noqa: BLE001
@@ -378,7 +385,7 @@ def run_scenario(line):
             break
     mismatch = replay_model(events) if failed is None else None
     # ---- canonical observation
-    mids = [r[1] for r in results.values()]
+    mids = [r[1] for r in results.values()] + [m for m in sub_mids if m is not None]
     obs = {
         "failed": (type(failed).__name__ + ":" + str(failed)[:120]) if failed else "-",
         "errors": errors + [f"{n} died: {type(st.exc).__name__}: {st.exc}" for n, st in sch.t.items() if st.exc is not None],
@@ -493,6 +500,12 @@ class ThreadStream:
                 continue
             npub = rng.choice([1, 2, 2, 3])
             msgs = ";".join(",".join(str(rng.choice([0, 1, 2])) for _ in range(rng.randint(1, 3))) for _ in range(npub))
+            mq = ""
+            if rng.random() < 0.25:
+                # a bounded outgoing queue (publishes beyond M outstanding messages are refused) and subscribe() calls among the
+                # publishes: every id handed out - to accepted, refused and subscribe calls alike - is distinct
+                msgs = ";".join(",".join(str(rng.choice([1, 2, 1, 2, 3])) for _ in range(rng.randint(2, 3))) for _ in range(max(2, npub)))
+                mq = f" M={rng.choice([1, 1, 2])}"
             if rng.random() < 0.2:
                 # two loop_start() sessions on one client; the first one is ended while publishers are still queueing
                 case.append(f"thr seed={rng.randrange(10**6)} policy={rng.choice(['random', 'random', 'hold'])} sw={rng.choice(['0.1', '0.3', '0.6'])} "
@@ -501,7 +514,7 @@ class ThreadStream:
                 continue
             case.append(f"thr seed={rng.randrange(10**6)} policy={rng.choice(['random', 'random', 'pct', 'hold', 'hold'])} sw={rng.choice(['0.1', '0.3', '0.6'])} "
                         f"msgs={msgs} N={rng.choice([1, 2, 20])} early={int(rng.random() < 0.3)} proto={rng.choice([4, 5])} "
-                        f"conn={rng.choice(['sync', 'async'])} drop={rng.choice([0, 0, 1, 2, 3])} part={rng.choice([0, 0, 3, 9])}")
+                        f"conn={rng.choice(['sync', 'async'])} drop={rng.choice([0, 0, 1, 2, 3])} part={rng.choice([0, 0, 3, 9])}" + mq)
         return case
 
     def real(self, case):
